@@ -2321,7 +2321,8 @@ def fast_nonMarkov_SIR(G, trans_time_fxn=None,
     if initial_recovereds is not None:
         for node in initial_recovereds:
             status[node] = 'R'
-            rec_time[node] = tmin-1 #default value for these.  Ensures that the recovered nodes appear with a time
+            rec_time[node] = tmin #Ensures that the recovered nodes appear as recovered from tmin on
+    number_initially_recovered = len(status) #only the initially recovered nodes have an entry so far
     pred_inf_time = defaultdict(lambda: float('Inf')) 
         #infection time defaults to \infty  --- this could be set to tmax, 
         #probably with a slight improvement to performance.
@@ -2338,7 +2339,7 @@ def fast_nonMarkov_SIR(G, trans_time_fxn=None,
         initial_infecteds=[initial_infecteds]
     #else it is assumed to be a list of nodes.
         
-    times, S, I, R= ([tmin], [G.order()], [0], [0])  
+    times, S, I, R= ([tmin], [G.order()-number_initially_recovered], [0], [number_initially_recovered])  
     transmissions = []
     
     for u in initial_infecteds:
